@@ -402,7 +402,8 @@ CPReplace(t, f, old, newKind, newT, newF, count) ==
 (***************************************************************************)
 BodyItems(body) ==
   LET parts == SplitOn(body, SEMI) IN
-  [k \in DOMAIN parts |-> IF AllDigits(parts[k]) THEN <<"i", Num(parts[k])>> ELSE <<"s", 0>>]
+  [k \in DOMAIN parts |-> IF parts[k] = << >> THEN <<"i", 0>>       \* an empty parameter is 0
+                          ELSE IF AllDigits(parts[k]) THEN <<"i", Num(parts[k])>> ELSE <<"s", 0>>]
 StrictBody(body) == \A k \in DOMAIN body : IsDigit(body[k]) \/ body[k] = SEMI
 
 \* does items[idx..] start with <<c, mode>> ?
